@@ -231,3 +231,15 @@ func SpreadDirs(l *Layout) {
 		f.Name = fmt.Sprintf("%s/f%d%s", dirs[i%2], i/2, ext)
 	}
 }
+
+// OneLineGoLayout: ONE Go file in which every definition is its own interpreted `# @genqlient`
+// string literal, all of them elements of one composite literal on ONE source line -- so every
+// literal has the same pseudo file name (`file.go:<line>`), and the literals have different
+// numbers of lines.
+func OneLineGoLayout(n int) *Layout {
+	f := &File{Name: "ops/q0.go", OneLine: true}
+	for i := 0; i < n; i++ {
+		f.Lits = append(f.Lits, &Literal{Defs: []int{i}})
+	}
+	return &Layout{Files: []*File{f}}
+}
